@@ -146,6 +146,21 @@ Proof.
     exists c. rewrite (rx_only_findw h0 h r R). repeat split; auto; cbn; destruct R as [R1 [R2 [R3 [R4 [R5 R6]]]]]; congruence.
 Qed.
 
+(* _focus_chain_changed: the walk towards the root, then the restore request *)
+Lemma focus_chain_changed_spec : forall D fuel w h0,
+  hoare (fun h => h = h0 /\ hinv D h0 /\ (forall a, w = Some a -> findw h0 a <> None))
+        (focus_chain_changed fuel w) (fun _ h' => rx_only h0 h').
+Proof.
+  induction fuel as [|f IH]; intros w h0; cbn; [apply hoare_nofuel|].
+  intros h [E [HI Hl]]. subst h. destruct w as [a|]; [|cbn; apply rx_only_refl].
+  destruct (live_some h0 a (Hl a eq_refl)) as [c Hf].
+  unfold bind at 1. rewrite (getw_run h0 a c Hf).
+  destruct (w_isroot c) eqn:Hr.
+  - apply (request_restore_spec D a h0 h0). split; [reflexivity|]. split; [exact HI|]. exists c. auto.
+  - apply (IH (w_parent c) h0 h0). split; [reflexivity|]. split; [exact HI|].
+    intros p Hp. destruct (hinv_parent_live D h0 a c p HI Hf Hp) as [cp Hcp]. congruence.
+Qed.
+
 (* tickit_window_expose: the walk towards the root *)
 Lemma expose_root_spec : forall a c h0, findw h0 a = Some c -> w_isroot c = true ->
   hoare (fun h => h = h0)
